@@ -1,0 +1,200 @@
+// SPDX-FileCopyrightText: 2026 The Pion community <https://pion.ly>
+// SPDX-License-Identifier: MIT
+
+//go:build verif
+
+package ice
+
+import (
+	"context"
+	"encoding/hex"
+	"sync"
+	"time"
+)
+
+// This file exists only with the verif build tag. It gives an external
+// verification harness read access to agent state (through the task loop, like
+// every other accessor) and lets it drive the connectivity-check ticker.
+
+var verifTickers sync.Map // *Agent -> func()
+
+// VerifManualTicks makes agents started afterwards hand their per-tick closure
+// to the harness instead of running it on a timer.
+var VerifManualTicks bool //nolint:gochecknoglobals
+
+func verifParkTicker(a *Agent, contact func()) bool {
+	if !VerifManualTicks {
+		return false
+	}
+	verifTickers.Store(a, contact)
+	<-a.loop.Done()
+	verifTickers.Delete(a)
+
+	return true
+}
+
+// VerifTick runs the agent's real per-tick closure once.
+func VerifTick(a *Agent) bool {
+	f, ok := verifTickers.Load(a)
+	if !ok {
+		return false
+	}
+	f.(func())() //nolint:forcetypeassert
+
+	return true
+}
+
+// VerifPair is the harness view of one checklist entry.
+type VerifPair struct {
+	ID      uint64 `json:"id"`
+	L       string `json:"l"`
+	R       string `json:"r"`
+	LNet    string `json:"lnet"`
+	RNet    string `json:"rnet"`
+	St      string `json:"st"`
+	Nom     bool   `json:"nom"`
+	Nos     bool   `json:"nos"`
+	Reqs    int    `json:"reqs"`
+	Prio    uint64 `json:"prio"`
+	Ctl     bool   `json:"ctl"`
+	ReqSent uint64 `json:"reqSent"`
+	ReqRecv uint64 `json:"reqRecv"`
+	ResSent uint64 `json:"resSent"`
+	ResRecv uint64 `json:"resRecv"`
+	PktSent uint32 `json:"pktSent"`
+	PktRecv uint32 `json:"pktRecv"`
+	BytSent uint64 `json:"bytSent"`
+	BytRecv uint64 `json:"bytRecv"`
+}
+
+// VerifTxn is the harness view of one outstanding Binding request.
+type VerifTxn struct {
+	Tid string    `json:"tid"`
+	Dst string    `json:"dst"`
+	Net string    `json:"net"`
+	UC  bool      `json:"uc"`
+	Nom uint32    `json:"nom"`
+	At  time.Time `json:"-"`
+}
+
+// VerifCand is the harness view of a candidate.
+type VerifCand struct {
+	Addr string    `json:"addr"`
+	Typ  string    `json:"typ"`
+	Net  string    `json:"net"`
+	Prio uint32    `json:"prio"`
+	Rx   time.Time `json:"-"`
+	Tx   time.Time `json:"-"`
+}
+
+// VerifSnap is a consistent view of the agent taken inside the task loop.
+type VerifSnap struct {
+	OK          bool        `json:"ok"`
+	Locals      []VerifCand `json:"locals"`
+	Remotes     []VerifCand `json:"remotes"`
+	Role        string      `json:"role"`
+	Conn        string      `json:"conn"`
+	Gath        string      `json:"gath"`
+	Pairs       []VerifPair `json:"pairs"`
+	Pend        []VerifTxn  `json:"pend"`
+	Sel         uint64      `json:"sel"`
+	NomPair     uint64      `json:"nomPair"`
+	LastNom     uint32      `json:"lastNom"`
+	NextPairID  uint64      `json:"nextPairId"`
+	ByID        int         `json:"byId"`
+	LocalUfrag  string      `json:"localUfrag"`
+	RemoteUfrag string      `json:"remoteUfrag"`
+	TieBreaker  uint64      `json:"-"`
+	SelStart    time.Time   `json:"-"`
+}
+
+func verifPairState(s CandidatePairState) string {
+	switch s {
+	case CandidatePairStateWaiting:
+		return "W"
+	case CandidatePairStateInProgress:
+		return "I"
+	case CandidatePairStateSucceeded:
+		return "S"
+	case CandidatePairStateFailed:
+		return "F"
+	default:
+		return "?"
+	}
+}
+
+// VerifSetTieBreaker overrides the random tie-breaker.
+func (a *Agent) VerifSetTieBreaker(v uint64) {
+	_ = a.loop.Run(a.loop, func(context.Context) { a.tieBreaker = v })
+}
+
+// VerifSnapshot returns the agent's bookkeeping as one consistent view.
+func (a *Agent) VerifSnapshot() (s VerifSnap) { //nolint:cyclop
+	err := a.loop.Run(a.loop, func(context.Context) {
+		s.Role = a.role().String()
+		s.Conn = a.connectionState.String()
+		s.Gath = a.gatheringState.String()
+		s.TieBreaker = a.tieBreaker
+		s.LocalUfrag = a.localUfrag
+		s.RemoteUfrag = a.remoteUfrag
+		s.NextPairID = a.nextPairID
+		s.ByID = len(a.pairsByID)
+		for _, nt := range supportedNetworkTypes() {
+			for _, c := range a.localCandidates[nt] {
+				s.Locals = append(s.Locals, VerifCand{
+					c.addrPort().String(), c.Type().String(), c.NetworkType().String(), c.Priority(),
+					c.LastReceived(), c.LastSent(),
+				})
+			}
+			for _, c := range a.remoteCandidates[nt] {
+				s.Remotes = append(s.Remotes, VerifCand{
+					c.addrPort().String(), c.Type().String(), c.NetworkType().String(), c.Priority(),
+					c.LastReceived(), c.LastSent(),
+				})
+			}
+		}
+		for _, p := range a.checklist {
+			s.Pairs = append(s.Pairs, VerifPair{
+				ID: p.id, L: p.Local.addrPort().String(), R: p.Remote.addrPort().String(),
+				LNet: p.Local.NetworkType().String(), RNet: p.Remote.NetworkType().String(),
+				St: verifPairState(p.state), Nom: p.nominated, Nos: p.nominateOnBindingSuccess,
+				Reqs: int(p.bindingRequestCount), Prio: p.priority(), Ctl: p.iceRoleControlling,
+				ReqSent: p.RequestsSent(), ReqRecv: p.RequestsReceived(),
+				ResSent: p.ResponsesSent(), ResRecv: p.ResponsesReceived(),
+				PktSent: p.PacketsSent(), PktRecv: p.PacketsReceived(),
+				BytSent: p.BytesSent(), BytRecv: p.BytesReceived(),
+			})
+		}
+		for _, t := range a.pendingBindingRequests {
+			var nv uint32
+			if t.nominationValue != nil {
+				nv = *t.nominationValue
+			}
+			s.Pend = append(s.Pend, VerifTxn{
+				hex.EncodeToString(t.transactionID[:]), t.destination.String(), t.networkType.String(),
+				t.isUseCandidate, nv, t.timestamp,
+			})
+		}
+		if sp := a.getSelectedPair(); sp != nil {
+			s.Sel = sp.id
+		}
+		sel := a.getSelector()
+		if ls, ok := sel.(*liteSelector); ok {
+			sel = ls.pairCandidateSelector
+		}
+		switch sel := sel.(type) {
+		case *controllingSelector:
+			if sel.nominatedPair != nil {
+				s.NomPair = sel.nominatedPair.id
+			}
+			s.SelStart = sel.startTime
+		case *controlledSelector:
+			if sel.lastNomination != nil {
+				s.LastNom = *sel.lastNomination
+			}
+		}
+	})
+	s.OK = err == nil
+
+	return s
+}
